@@ -1,6 +1,7 @@
 package harness
 
 import (
+	"context"
 	"sync"
 	"time"
 
@@ -37,6 +38,10 @@ func genC18(r *simrt.RNG, tier string, variant int) Plan {
 			op.Kind = "call"
 			op.Size = Pick(r, []int{0, 100, 4096, 20000, 70000})
 			op.Err = r.Bool(0.1)
+			if r.Bool(0.3) {
+				op.Kind = "ctx" // the caller cancels this call's context at some point
+				op.Cancel = 1 + Pick(r, []int{0, 3, 15, 60, 200})
+			}
 		case x < 6:
 			op.Kind = "retry"
 		case x < 7:
@@ -117,8 +122,31 @@ func runC18(e *Env, p *Plan) {
 			}
 		})
 	}
+	var cancels []context.CancelFunc
+	defer func() {
+		for _, c := range cancels {
+			c()
+		}
+	}()
 	for _, op := range p.Ops {
 		op := op
+		if op.Phase == 0 && op.Cancel > 0 {
+			ctx, cancel := context.WithCancel(context.Background())
+			cancels = append(cancels, cancel)
+			w.Start(op, ctx)
+			e.S.Go("cancel-"+itoa(op.Tok), func() {
+				for i := 1; i < op.Cancel; i++ {
+					simrt.Yield("cancel-delay")
+				}
+				t := e.Tok(op.Tok)
+				t.mu.Lock()
+				t.Cancelled = true
+				t.mu.Unlock()
+				e.Probe("ctx-cancelled-around-close")
+				cancel()
+			})
+			continue
+		}
 		if op.Phase == 0 {
 			w.Start(op, nil)
 		} else {
